@@ -6,6 +6,7 @@ import Driver.Memo
 import Driver.Decode
 import Driver.Http
 import Driver.Faults
+import Driver.Parse
 /-!
   Line-protocol driver.  One request per line:
 
@@ -37,6 +38,7 @@ def engineModel (eng : String) (args : List String) : Option String :=
   | "audit" => Eng.auditModel args
   | "decode" => Decode.model args
   | "http" => Http.model args
+  | "parse" => Parse.model args
   | _ => none
 
 def engineJudge (eng : String) (args obs : List String) : Bool :=
@@ -55,6 +57,7 @@ def engineJudge (eng : String) (args obs : List String) : Bool :=
      | _ => false)
   | "decode" => Decode.judge args obs
   | "http" => Http.judge args obs
+  | "parse" => Parse.judge args obs
   | "nopanic" => obs.all (fun t => t == "cfg=ok" || t == "cfg=err" || t == "run=ok" || t == "run=-")   -- never PANIC / HANG
   | "conc" =>
     -- C06 monitor: no transaction differed from its sequential outcome, no race report, no panic
